@@ -83,6 +83,8 @@ def _drain(ctx, s, m, tag):
 
 OPS = ["take", "peek", "skip", "limit", "take_none", "peek_none", "take_special", "append", "map", "filter", "copy",
        "next", "tee"]
+# finite counts far beyond any stream (and beyond sys.maxsize): "fewer, without error, when fewer remain"
+HUGE = [2 ** 63, 10 ** 30, 1e30]
 
 
 def h_history(ctx, cfg):
@@ -125,8 +127,10 @@ def _h_history(ctx, cfg):
   filtered = False
   first = cfg.get("first")
   ctx.distinct(allelems)
+  held, hist = {}, []
   for t in range(steps):
     kind = first if (t == 0 and first) else ctx.choice("op%d" % t, cfg.get("ops%d" % t, OPS))
+    hist.append(kind)
     tg = ctx.split("tg%d" % t, 0, len(pool) - 1) if len(pool) > 1 else 0
     s, m = pool[tg], models[tg]
     if kind in ("take", "peek", "skip", "limit"):
@@ -192,6 +196,31 @@ def _h_history(ctx, cfg):
       except StopIteration:
         gexc = True
       ctx.prove(gexc == wexc and (gexc or same(got, want)), "iteration-yields-next-item")
+    elif kind == "held_next":
+      # plain iteration with ONE iterator kept across the other operations (a `for` loop around them)
+      if tg not in held: held[tg] = iter(s)
+      try:
+        want = m.take(None); wexc = False
+      except StopIteration:
+        wexc = True
+      try:
+        got = next(held[tg]); gexc = False
+      except StopIteration:
+        gexc = True
+      ctx.prove(gexc == wexc and (gexc or same(got, want)), "held-iterator-yields-the-next-item",
+                "step %d: after %s" % (t, ",".join(hist) or "nothing"))
+    elif kind == "huge":
+      n = ctx.choice("hv%d" % t, HUGE); meth = ctx.choice("hm%d" % t, ["take", "peek", "limit", "skip"])
+      if m.endless and meth in ("take", "peek"): ctx.exclude("all of an endless stream")
+      if meth in ("take", "peek"):
+        got = getattr(s, meth)(n); want = list(m.items)
+        if meth == "take": m.items = []
+        ctx.prove(_same_list(got, want), "count-beyond-the-end-returns-what-remains", "step %d %s(%r)" % (t, meth, n))
+      elif meth == "limit":
+        s.limit(n)                     # no-op on the contents
+      else:
+        if m.endless: ctx.exclude("skipping 1e30 items of an endless stream")
+        s.skip(n); m.items = []
     elif kind == "tee":
       if len(pool) + 1 > cfg["pool"]: ctx.exclude("pool bound")
       a, b = tee(s, 2)
@@ -377,6 +406,12 @@ def tasks(tier, seed):
                               "nvals1": [-1, 0, 1, 2, 4], "specials1": [2.5, INF, NAN]}))
     T.append(("h_history", {"L": 2, "steps": 2, "pool": 3, "first": first, "periodic": True}))
     T.append(("h_history", {"L": 3, "steps": 2, "pool": 3, "first": first, "ctor": "gen", "reverse_drain": True}))
+  # one iterator held across other operations (what a `for` loop does), and counts beyond sys.maxsize
+  for mid in ("peek", "copy", "take", "skip", "limit", "append", "map", "tee", "peek_none", "take_special"):
+    T.append(("h_history", {"L": 3, "steps": 3, "pool": 2, "first": "held_next", "ops1": [mid], "ops2": ["held_next"],
+                            "nvals1": [0, 1, 2]}))
+  for first in ("huge", "take", "copy", "skip"):
+    T.append(("h_history", {"L": 2, "steps": 2, "pool": 2, "first": first, "ops1": ["huge"], "nvals0": [0, 1, 3]}))
   for L in ((1, 2) if not big else (0, 1, 2)):
     for src in ("list", "stream"):
       T.append(("h_thub", {"L": L, "n": 3 if big else 2, "src": src}))
